@@ -16,7 +16,9 @@ RULE = ("Virtual clock: ctparse.timers.perf_counter replaced by a counter advanc
         "gives the full stream; work after the deadline (scorings + rule applications + applicability "
         "analyses at a clock value past the deadline) <= 2*|rules|*L + L + 2 with L the longest "
         "candidate sequence - independent of the number of sequences. Non-trivial = distinct (input, k) "
-        "with k < R (the deadline really expires inside the run).")
+        "with k < R (the deadline really expires inside the run). History clause: for every input, a fresh process that "
+        "first meets the text under ~165 expiring deadlines must afterwards stream, without a deadline, exactly what a "
+        "fresh process without that history streams.")
 
 
 class Clock:
@@ -122,22 +124,29 @@ class Instr:
 
         class Rec(Scorer):
             def score(self, txt, ts, pp):
-                ev.append(("score", clock.t, clock.nchecks, -1))
+                # a partial parse straight from a candidate sequence has a trace of pattern ids only ("score0");
+                # a child made by a rule carries the rule's name last, its parent's trace is everything before
+                tr = tuple(pp.rules)
+                if any(isinstance(r, str) for r in tr):
+                    ev.append(("score", clock.t, clock.nchecks, -1, tr[:-1]))
+                else:
+                    ev.append(("score0", clock.t, clock.nchecks, -1, tr))
                 return inner.score(txt, ts, pp)
 
             def score_final(self, txt, ts, pp, prod):
-                ev.append(("final", clock.t, clock.nchecks, -1))
+                ev.append(("final", clock.t, clock.nchecks, -1, tuple(pp.rules)))
                 return inner.score_final(txt, ts, pp, prod)
 
         return Rec()
 
 
 def unit_problems(events):
-    """Between two consecutive deadline checks at most one candidate sequence may be
-    analysed / scored and at most one partial parse expanded.  One expansion shows as
-    (apply score?)* final* with rule indices in registry order (the loop over the
-    applicable rules), so a second expansion inside the same group is visible as an apply
-    after a final or as a restart of the rule order."""
+    """Between two consecutive deadline checks at most one candidate sequence may be analysed / scored and at most
+    one partial parse expanded.  One expansion shows as (apply | score)* final*: rule applications in registry order
+    (the loop over the applicable rules; a memo may skip some), scorings of children that all have the SAME parent
+    trace, then possibly the emission of the parent itself.  A second expansion inside the same group is visible as
+    children of two different parents, as an apply after an emission, or as a restart of the rule order; a second
+    candidate sequence as two sequence scorings or analyses in one group."""
     groups = {}
     for e in events:
         groups.setdefault(e[2], []).append(e)
@@ -148,11 +157,13 @@ def unit_problems(events):
             if kinds != ["analyse"]:
                 bad.append(("several-analyses-or-mixed-work-between-two-checks", g, kinds[:8], len(kinds)))
             continue
-        if kinds == ["score"]:
+        if "score0" in kinds:
+            if kinds != ["score0"]:
+                bad.append(("several-scorings-between-two-checks", g, kinds[:8], len(kinds)))
             continue
         last_idx = -1
         seen_final = False
-        prev = None
+        parents = set()
         for e in evs:
             k = e[0]
             if k == "apply":
@@ -163,13 +174,13 @@ def unit_problems(events):
                     bad.append(("second-expansion-between-two-checks(rule order restarts)", g, kinds[:8], len(kinds)))
                     break
                 last_idx = e[3]
-            elif k == "score":
-                if prev != "apply":
+            else:
+                parents.add(e[4])
+                if len(parents) > 1:
                     bad.append(("several-scorings-between-two-checks", g, kinds[:8], len(kinds)))
                     break
-            elif k == "final":
-                seen_final = True
-            prev = k
+                if k == "final":
+                    seen_final = True
     return bad
 
 
@@ -288,6 +299,48 @@ def _job(arg):
     return acc
 
 
+HISTORY_KS = list(range(1, 150)) + [160, 200, 233, 300, 377, 450, 610, 800, 987, 1300, 1597, 2000, 2584, 3500, 4181]
+
+
+def _history_job(arg):
+    """the untimed stream of a text in a process that has / has not met the text under expiring deadlines before"""
+    text, ts, mode = arg
+    m = core.load_repo()
+    err = None
+    with Instr() as ins:
+        if mode == "after-timeouts":
+            for k in HISTORY_KS:
+                ins.reset()
+                try:
+                    list(m.ctparse_gen(text, ts, timeout=k + 0.5, scorer=ins.scorer()))
+                except Exception as e:
+                    err = "k={}: {!r}".format(k, e)
+                    break
+        ins.reset()
+        try:
+            full = [tup(c) for c in m.ctparse_gen(text, ts, timeout=10 ** 15, scorer=ins.scorer()) if c]
+        except Exception as e:
+            full, err = None, err or "untimed run: {!r}".format(e)
+    return text, full, err
+
+
+def history_problems(inputs, ts):
+    """-> {text: (bucket, detail)}: both modes run in pools of their own, forked from a parent that never parsed"""
+    clean = {t: (f, e) for t, f, e in core.pmap(_history_job, [(t, ts, "clean") for t in inputs])}
+    after = {t: (f, e) for t, f, e in core.pmap(_history_job, [(t, ts, "after-timeouts") for t in inputs])}
+    out = {}
+    for t in inputs:
+        (f0, e0), (f1, e1) = clean[t], after[t]
+        if e0 or e1:
+            out[t] = ("raises-in-history-run", str(e0 or e1))
+        elif f0 != f1:
+            i = next((i for i, (a, b) in enumerate(zip(f0, f1)) if a != b), min(len(f0), len(f1)))
+            out[t] = ("untimed-stream-differs-after-timed-out-runs",
+                      "a process that first met the text under {} expiring deadlines then streams {} items without a deadline, a fresh one {}; "
+                      "first difference at #{}".format(len(HISTORY_KS), len(f1), len(f0), i))
+    return out
+
+
 FAMILIES = ["1 2", "1 2 3", "1 2 3 4", "1 2 3 4 5", "mon 1 2 3", "8 9 10 11 12", "1 2 3 4 5 6"]
 FAMILIES_THOROUGH = ["1 2 3 4 5 6 7", "tomorrow 8 yesterday Sep 9 9 12"]
 CORPUS_PICK = ["heute", "8:00 pm - 9:00 pm", "friday 9-5", "May 5th 2020 8:30 pm", "tomorrow for 2 days",
@@ -310,7 +363,15 @@ def run(ctx):
         # the number of expiry points is only known after the baseline: split by index ranges
         for lo in range(0, budget + 2, 100):
             jobs.append((ctx.pid, text, ts, lo, lo + 100, budget))
-    acc = core.pmap_acc(ctx.pid, _job, jobs)
+    # history: nothing a timed-out run leaves behind may change what a later run without deadline streams
+    hist_inputs = [t for t in inputs if t.strip()]
+    hp = history_problems(hist_inputs, ts)
+    acc = core.Acc(ctx.pid)
+    for t in hist_inputs:
+        acc.case(("history", t), nontrivial=True, cls="untimed-run-after-timed-out-runs", sample={"text": t, "ts": ts.isoformat(), "k": -2})
+        if t in hp:
+            acc.fail(hp[t][0], {"text": t, "ts": ts.isoformat(), "k": -2}, hp[t][1])
+    acc.merge(core.pmap_acc(ctx.pid, _job, jobs))
     return core.finish(ctx, acc, RULE, level="fault_enumeration", exhaustive=False, assumptions=[
         "the virtual clock advances only when read; the deadline closure and timeit() are the only readers",
         "expiry points are complete for inputs with R <= {} reads, stratified beyond (counts in notes)".format(budget),
@@ -321,6 +382,8 @@ def run(ctx):
 def replay(case):
     import ctparse.rule as Rm
     text, ts, k = case["text"], core.parse_ts(case["ts"]), case["k"]
+    if k == -2:
+        return history_problems([text], ts).get(text)
     L, nseq = longest_sequence(text)
     bound = 2 * len(Rm.rules) * L + L + 2
     with Instr() as ins:
